@@ -22,6 +22,13 @@ Theorem C11_untrusted_exact_builtin : forall e, parser_normal e ->
 Proof. exact untrusted_exact_builtin. Qed.
 Print Assumptions C11_untrusted_exact_builtin.
 
+(* the same for the generic visitor of expr_ast.go (every node gets its callbacks, all
+   arguments are visited), which actionlint's own tests use to drive the checker *)
+Theorem C11_visit_exact : forall roots e, parser_normal e ->
+  reports_equiv (reported true roots (visit_events e)) (spec_paths roots (fun _ => true) e).
+Proof. exact visit_exact. Qed.
+Print Assumptions C11_visit_exact.
+
 (* every report sits at the token of the variable a maximal access chain starts at,
    and names exactly the documented inputs that chain reads *)
 Theorem C11_untrusted_positions : forall roots funcs e, parser_normal e ->
